@@ -114,6 +114,8 @@ pub struct Entry {
     pub pay_issued: bool,
     /// Snapshot at marker write: (min expiry lenient bound, told_low).
     pub snap: Option<(u32, u32)>,
+    /// (exact minimum expiry, HTLCs of other hashes were held) when unambiguous.
+    pub snap_exact: Option<(u32, bool)>,
     /// This entry started on a Pending record (restart path).
     pub restart_path: bool,
     pub restart_wait_done: bool,
@@ -287,6 +289,18 @@ impl Oracles {
 
     /// C19: refuse to start iff the reference validator says so.
     pub fn on_boot_done(&mut self, w: &World) {
+        if !w.init_acked && super::sched::config_must_refuse(&w.cfg) != Some(true) {
+            self.violate(
+                w,
+                "C17",
+                "handshake-not-completed",
+                format!(
+                    "getmanifest/init were written to the plugin's input (read in chunks of at most {} bytes) but init was never acknowledged (main returned {:?})",
+                    match w.cfg.chunking { 2 => 1, 1 => 7, _ => usize::MAX },
+                    w.main_result
+                ),
+            );
+        }
         let must_refuse = match super::sched::config_must_refuse(&w.cfg) {
             Some(r) => r,
             None => return,
@@ -356,25 +370,20 @@ impl Oracles {
             .push((dest.to_string(), hash.to_string(), invoice.to_string()));
         // C10: the failure notification names the key the signature verifies against.
         self.hit("c10.notification");
-        let parsed: Option<lightning_invoice::Bolt11Invoice> = invoice.parse().ok();
-        match parsed {
-            Some(inv) => {
-                let payee = inv
-                    .payee_pub_key()
-                    .copied()
-                    .unwrap_or_else(|| inv.recover_payee_pub_key());
-                if payee.to_string() != dest {
+        match rf::invoice_info(invoice, &super::content::pool().local_pubkey) {
+            Ok(inv) => {
+                if inv.payee != dest {
                     self.violate(
                         w,
                         "C10",
                         "notification-payee",
                         format!(
                             "failure notification names payee {} but the invoice verifies against {}",
-                            dest, payee
+                            dest, inv.payee
                         ),
                     );
                 }
-                if inv.payment_hash().to_string() != hash {
+                if rf::hex(&inv.hash) != hash {
                     self.violate(
                         w,
                         "C10",
@@ -383,7 +392,7 @@ impl Oracles {
                     );
                 }
             }
-            None => self.violate(
+            Err(_) => self.violate(
                 w,
                 "C10",
                 "notification-invoice",
@@ -454,6 +463,7 @@ impl Oracles {
                     marker_issued: false,
                     pay_issued: false,
                     snap: None,
+                    snap_exact: None,
                     restart_path: false,
                     restart_wait_done: false,
                     rpc_fault_seen: false,
@@ -596,9 +606,23 @@ impl Oracles {
             None => min_earlier,
         };
         let told_low = w.told_low;
+        // Exact minimum, when at most one HTLC of this hash arrived in this step.
+        let this_step = Self::held_for(w, x)
+            .filter(|ci| w.node.calls[*ci].delivered_step == Some(w.step))
+            .count();
+        let exact = if this_step <= 1 && w.told_low == w.told_all && !w.cfg.backpressure {
+            Some(bound)
+        } else {
+            None
+        };
+        let others_held = w
+            .node
+            .held_calls()
+            .any(|(_, c)| matches!(&c.class, Class::Trampoline(t) if &t.hash != x));
         if let Some(e) = self.entries.get_mut(x) {
             e.marker_issued = true;
             e.snap = Some((bound, told_low));
+            e.snap_exact = exact.map(|m| (m, others_held));
             if !e.funded && e.doomed.is_none() {
                 let (sum, amt) = (e.sum, e.amount_msat);
                 self.violate(
@@ -834,6 +858,24 @@ impl Oracles {
                 }
                 if bound == 0 {
                     self.hit("c04.floored-at-zero");
+                }
+                // C14: with HTLCs of other hashes held, the value must still be
+                // exactly what this hash's own HTLCs determine.
+                if let Some((exact_min, true)) = self.entries.get(x).and_then(|e| e.snap_exact) {
+                    if w.told_low == w.told_all {
+                        self.hit("c14.maxdelay-exact-with-other-hash-held");
+                        let want = ((exact_min as i64 - told as i64 - cfg.cltv_delta as i64).max(0) as u64)
+                            .min(cfg.policy_delta as u64)
+                            .min(65535);
+                        if d != want {
+                            self.violate(
+                                w,
+                                "C14",
+                                "maxdelay-depends-on-other-hash",
+                                format!("maxdelay {} for hash {} but its own HTLCs (lowest expiry {}, height {}, safety delta {}, policy delta {}) determine {}; HTLCs of another hash are held at the same time", d, rf::hex(x), exact_min, told, cfg.cltv_delta, cfg.policy_delta, want),
+                            );
+                        }
+                    }
                 }
             }
             (None, _) => self.violate(w, "C04", "maxdelay-missing", "pay without maxdelay".into()),
@@ -1867,6 +1909,13 @@ impl Oracles {
                 if Some(w.node.htlc(c.hid).spec.hash_ix) == w.frozen_hash {
                     continue;
                 }
+                self.violate_k(
+                    w,
+                    "C17",
+                    "request-without-reply",
+                    ukey.clone(),
+                    format!("hook call {} (htlc {}) never received a reply carrying its id", c.call_id, c.hid),
+                );
                 self.violate_k(
                     w,
                     "C06",
